@@ -73,7 +73,7 @@ pub fn field_names(targets: &[ObjectId]) -> Vec<String> {
         let t = format!("{}_{}", t.0, t.1);
         for q in ["go", "gom", "gd", "pc", "pcc", "pr", "pf", "pa", "pi", "op", "fe", "nd"] { v.push(format!("{}:{}", q, t)); }
     }
-    v.push("outl".into()); v.push("toc".into()); v.push("dests".into()); v.push("text".into());
+    v.push("outl".into()); v.push("toc".into()); v.push("dests".into()); v.push("text".into()); v.push("xt".into());
     v
 }
 
@@ -166,6 +166,25 @@ pub fn eval_field(doc: &mut Document, field: &str) -> String {
         "toc" => run_field(|| {
             let t = e(doc.get_toc())?;
             Ok(format!("{}{},{}", t.toc.len(), t.toc.iter().map(|x| format!(":{}.{}", x.level, x.page)).collect::<String>(), t.errors.len()))
+        }),
+        // extract_text compared with the composed model (C13 pages/fonts + C09 filters + C14 parser + C16 text loop);
+        // `?` = outside that model: ToUnicode font (C15), UTF-16 Encoding name (encoding_rs), filtered content (flate2 / weezl)
+        "xt" => run_field(|| {
+            let pages = doc.get_pages();
+            let nums: Vec<u32> = (1..=(pages.len().min(3) as u32)).collect();
+            for k in &nums {
+                let pid = pages[k];
+                if let Ok(fonts) = doc.get_page_fonts(pid) {
+                    for (_, f) in fonts {
+                        if f.has(b"ToUnicode") || matches!(f.get(b"Encoding").and_then(Object::as_name), Ok(b"UniGB-UCS2-H") | Ok(b"UniGB-UTF16-H")) { return Ok("?".into()); }
+                    }
+                }
+                for id in doc.get_page_contents(pid) {
+                    if let Ok(Object::Stream(st)) = doc.get_object(id) { if st.dict.has(b"Filter") { return Ok("?".into()); } }
+                }
+            }
+            let t = e(doc.extract_text(&nums))?;
+            Ok(t.chars().map(|c| (c as u32).to_string()).collect::<Vec<_>>().join("."))
         }),
         "text" => run_field(|| {
             let n = doc.get_pages().len() as u32;
@@ -634,6 +653,7 @@ fn run_batch(c: &mut Ctx, batch: Vec<Pending>, docs: &[Document]) {
             let q = f.split(':').next().unwrap();
             let class = if v == "ok" || v.starts_with("ok,") { "ok" } else if v == "err" { "err" } else if v.starts_with("panic@") { "panic" } else if v == "diverge" { "diverge" } else { "other" };
             c.count(&format!("outcome.{}.{}", q, class));
+            if q == "xt" { c.count(if v == "ok,?" { "xt.outside_composed_model" } else if v.starts_with("ok,") { "xt.text_compared" } else if v == "ok" { "xt.empty_text_compared" } else { "xt.error_compared" }); }
             if class == "ok" || class == "err" { continue; }
             let qname = match q { "outl" => "get_outlines", "toc" => "get_toc", "dests" | "nd" => "get_named_destinations", "pages" => "get_pages", "iter" => "page_iter.collect",
                 "op" => "get_object_page", "text" => "extract_text", "pi" => "get_page_images", x => x };
